@@ -17,6 +17,7 @@ import json
 import os
 
 from ..astutil import AnalysisError, dotted, walk_local, src, calls_in
+from .. import pattern as P
 from ..rules.state import Inventory, Pairing, class_attrs, module_globals
 from ..rules import order as order_rule
 
@@ -310,7 +311,7 @@ def rule_entityinfo(run):
         if how is None:
             block = getattr(pm.of(st), pm.field_of(st))
             before = block[: block.index(st)]
-            if any("_entity_instantiation_handler(" in src(b) for b in before):
+            if any("_entity_instantiation_handler(" in P.T(b) for b in before):
                 how = "registered for cleanup before the assignment"
         run.ob(how is not None, "Entity.__init__", file=ctx.rel, line=st.lineno, detail="info.instantiated",
                expected="discarded when the architecture raises", found=how or "stale instance survives a failing architecture")
@@ -320,7 +321,7 @@ def rule_entityinfo(run):
     ok = False
     line = ex.node.lineno
     for st in ex.node.body:  # top level of the body only: must not be conditional
-        if isinstance(st, ast.For) and "_entity_infos" in src(st.iter):
+        if isinstance(st, ast.For) and "_entity_infos" in P.T(st.iter):
             if any(isinstance(c.func, ast.Attribute) and c.func.attr == "_discard_instantiation" for c in calls_in(st)):
                 ok = True
                 line = st.lineno
@@ -330,7 +331,7 @@ def rule_entityinfo(run):
            found=("loop present" if ok else "loop missing") + (", early return present" if early_exit else ""))
     # 4. the handler that registers infos appends to the same list
     h = pa.func("ConvertPythonInstance._entity_instantiation_handler")
-    ok = any(isinstance(c.func, ast.Attribute) and c.func.attr == "append" and "_entity_infos" in src(c.func.value) for c in calls_in(h.node))
+    ok = any(isinstance(c.func, ast.Attribute) and c.func.attr == "append" and "_entity_infos" in P.T(c.func.value) for c in calls_in(h.node))
     run.ob(ok, "ConvertPythonInstance._entity_instantiation_handler", file=pa.rel, line=h.node.lineno, detail="register",
            expected="appends the info to self._entity_infos", found="ok" if ok else "does not register")
     run.end()
